@@ -471,28 +471,29 @@ Proof.
       set (NQ := Nat.min (c - (p - tn) - (n - (tn - p))) (q - (tn - p - n))).
       (* the image lines the code selects *)
       set (IL := map (image_line l r) imgs) in *.
-      assert (HIL : length IL = n) by (subst IL; rewrite map_length; lia).
+      assert (HIL : length IL = n) by (subst IL n; rewrite map_length; clear - Hn; lia).
       assert (Himg_lines :
                 (if (h =? Z.of_nat TI1) || (h =? Z.of_nat TI2) then []
-                 else let il := py_slice lines t (neg_or_none b) in
-                      if negb (Z.of_nat TI1 =? h) && negb (h =? Z.of_nat TI2)
-                      then py_slice il (Z.of_nat TI1) (neg_or_none (Z.of_nat TI2)) else il)
+                 else if negb (Z.of_nat TI1 =? h) && negb (h =? Z.of_nat TI2)
+                      then py_slice (py_slice lines t (neg_or_none b)) (Z.of_nat TI1) (neg_or_none (Z.of_nat TI2))
+                      else py_slice lines t (neg_or_none b))
                 = firstn (n - TI1 - TI2) (skipn TI1 IL)).
       { assert (Hil : py_slice lines t (neg_or_none b) = IL).
         { rewrite py_slice_nonneg by lia. rewrite Hlen, Hshape. fold p q.
           rewrite skipn_app, repeat_length, Nat.sub_diag.
           rewrite (skipn_all2 (repeat _ p)) by (rewrite repeat_length; lia). cbn [app skipn].
           rewrite firstn_app, HIL.
-          replace (Z.to_nat H - p - q)%nat with n by lia. rewrite Nat.sub_diag.
+          replace (Z.to_nat H - p - q)%nat with n by (subst p q n; clear - DH Dt Db Hh; lia). rewrite Nat.sub_diag.
           rewrite firstn_all2 by lia. cbn [firstn]. apply app_nil_r. }
         assert (B1 : (TI1 <= n)%nat) by (subst TI1; clear; lia).
         assert (B2 : (TI2 <= n)%nat) by (subst TI2; clear; lia).
-        clearbody TI1 TI2.
+        assert (En : h = Z.of_nat n) by (subst n; clear - Hh; lia).
+        clearbody TI1 TI2 n. clear - B1 B2 HIL Hil En.
         destruct (Z.eqb_spec h (Z.of_nat TI1)) as [e1|n1]; cbn [orb].
         - replace (n - TI1 - TI2)%nat with O by lia. reflexivity.
         - destruct (Z.eqb_spec h (Z.of_nat TI2)) as [e2|n2].
           + replace (n - TI1 - TI2)%nat with O by lia. reflexivity.
-          + cbn zeta. rewrite Hil.
+          + rewrite Hil.
             destruct (Z.eqb_spec (Z.of_nat TI1) h); [lia|]. cbn [negb andb].
             rewrite py_slice_nonneg by lia. rewrite HIL, !Nat2Z.id. reflexivity. }
       rewrite Himg_lines.
@@ -500,7 +501,8 @@ Proof.
       assert (Hsel3 : sel = repeat (pad_line W) NP ++ firstn (n - TI1 - TI2) (skipn TI1 IL)
                             ++ repeat (pad_line W) NQ).
       { subst sel. rewrite Hshape. fold p q tn c.
-        assert (Hc : (0 < c)%nat) by lia. assert (Hfit : (tn + c <= p + n + q)%nat) by lia.
+        assert (Hc : (0 < c)%nat) by (subst c; clear - H4; lia).
+        assert (Hfit : (tn + c <= p + n + q)%nat) by (subst tn c p n q; clear - H2 H4 H6 DH Dt Db Hh; lia).
         clearbody p n q tn c.
         apply window3; [subst NP; reflexivity|subst TI1; rewrite HIL; clear; lia
                         |subst TI1 TI2; rewrite HIL; clear - Hc Hfit; lia
